@@ -135,7 +135,7 @@ def examine(case):
     if spec["limit"] is not None or spec["offset"]:
         spec["order"] = [(i, o) for i, o in spec["order"]] + [(i, None) for i in range(len(spec["select"]))
                                                               if i not in [j for j, _ in spec["order"]]
-                                                              and spec["select"][i][0][0] != "lit"]
+                                                              and not S.sqlite_int_const(spec["select"][i][0])]
     ref = S.sql_select(spec)
     pre = "\n".join(S.prelude(spec))
     src1 = pre + "\nq = " + S.py_select(spec, "SQLLiteQuery")
